@@ -52,6 +52,7 @@ func checkC11(c *Check) {
 		}
 		c.Hold("R3", o.Rule+":"+o.Key, o.posRaw, o.OK, o.Msg)
 	}
+	c03ReleaseBeforeForgetting(c, "R3e")
 	c.Rule("R3d", "a session that the SMTP library replaces (repeated EHLO / LHLO, also in the middle of a BDAT transfer) is logged out by the library or by NewSession: its open transaction is aborted and its permits are given back (C03.A1)", 1)
 	for _, o := range sub.obs {
 		if o.Rule == "A1" && strings.Contains(o.Key, "replaced") {
